@@ -196,15 +196,16 @@ def run(m: Model, r: Report, tier: str) -> None:
 
     # ---------------------------------------------------------------- R4
     g = CFG(rad.node)
-    adv = [n for n in g.nodes.values() if n.kind == "stmt" and isinstance(n.ast, ast.Assign) and ast.unparse(n.ast) == "self.last_response = result[0]"]
-    nul = [n for n in g.nodes.values() if n.kind == "cond" and n.ast is not None and ast.unparse(n.ast) == "response_pdu is not None"]
+    adv = [n for n in g.nodes.values() if n.kind == "stmt" and isinstance(n.ast, ast.Assign) and m.mtext(rad, n.ast) == "self.last_response = _L[0]"]
+    nul = [n for n in g.nodes.values() if n.kind == "cond" and n.ast is not None and m.mtext(rad, n.ast) == "_L is not None"
+           and any("parse_dynamic(" in ast.unparse(b) for s_ in ast.walk(rad.node) if isinstance(s_, ast.If) and s_.test is n.ast for b in s_.body[:1])]
     dom = g.dominators()
     r.check(len(adv) == 1 and len(nul) == 1 and adv[0].id in dom[nul[0].id], "R4", f"{rad.qualname}#cursor-advances",
             "the replay cursor must advance for every matched row, also when the recorded reply is NULL; otherwise a repeated request keeps "
             "hitting the same 'silence' row", loc=rad.loc)
     src = ast.unparse(rad.node)
     r.check("self.state.reset()" in src and src.rstrip().endswith("return None"), "R4", f"{rad.qualname}#null-reply", "a NULL reply must reset the state and yield no response", loc=rad.loc)
-    r.check("service.UDSResponse.parse_dynamic(unhexlify(response_pdu))" in src, "R4", f"{rad.qualname}#client-parser", "recorded bytes must be parsed with the client's dynamic parser", loc=rad.loc)
+    r.check(m.has(rad, "service.UDSResponse.parse_dynamic(unhexlify(response_pdu))"), "R4", f"{rad.qualname}#client-parser", "recorded bytes must be parsed with the client's dynamic parser", loc=rad.loc)
     r.check(any(isinstance(n, ast.Assign) and ast.unparse(n) == "self.last_response = -1" for n in ast.walk(dbs.methods["__init__"].node)), "R4",
             f"{dbs.qualname}#cursor-start", "the cursor must start before the first row", loc=dbs.loc)
 
